@@ -494,8 +494,20 @@ class Replayer:
 
     def run(self, behaviour):
         """Returns None if the behaviour conforms, else a dict describing the first mismatch."""
+        g = self.run_iter(behaviour)
+        while True:
+            try:
+                next(g)
+            except StopIteration as stop:
+                return stop.value
+
+    def run_iter(self, behaviour):
+        """Generator form of run(): yields after every step (so that two behaviours can be replayed INTERLEAVED by two
+        Replayers in one process); the generator's return value is run()'s result."""
         self.heap, self.expect, self.flags = {}, {}, {}
         for si, st in enumerate(behaviour):
+            if si:
+                yield si
             self.extra_ctx = {}
             ctx = self.context(st)
             try:
